@@ -331,6 +331,14 @@ class Interp2(Interp):
                     r = self.comprehension(n)
                 finally:
                     self.frame = saved
+                # a generator expression is evaluated once
+                v.kind = 'evaluated'
+                v.payload = r
+                if isinstance(r, list):
+                    return r
+                return self.try_iter_concrete(r)
+            if v.kind == 'evaluated':
+                r = v.payload
                 if isinstance(r, list):
                     return r
                 return self.try_iter_concrete(r)
